@@ -153,7 +153,9 @@ func genCodecOps(r *Rng, impl Executor) []Op {
 			o := genCodecObj(r)
 			typ, encLine = o.typ, o.enc
 		}
-		ops = append(ops, Op{encLine, false})
+		// the bytes are the wire format: an encoding that differs from the model's (which is
+		// proved to round-trip) is a violation at this very object
+		ops = append(ops, Op{encLine, true})
 		e := impl.Exec(encLine)
 		e = strings.TrimPrefix(e, "ok ")
 		if strings.ContainsAny(e, " ") || e == "panic" || strings.HasPrefix(e, "err") {
